@@ -169,7 +169,9 @@ def generate(rng: random.Random, cons: dict) -> dict:
         w["ids"] = "computed"
     # ---- custom static features on a subset of elements
     # falsy values (0.0) on purpose: "if val:" instead of "if val is not None:" is a classic
-    w["score"] = {str(n): rng.choice([0.0, round(rng.random(), 3), round(rng.random(), 3)]) for n in ids if rng.random() < 0.6}
+    # (None: an attribute that is present with the value None - how many pipelines mark a
+    # missing measurement - next to nodes that do not carry the attribute at all)
+    w["score"] = {str(n): rng.choice([0.0, round(rng.random(), 3), round(rng.random(), 3), round(rng.random(), 3), None]) for n in ids if rng.random() < 0.6}
     w["conf"] = {f"{u},{v}": rng.choice([0.0, round(rng.random(), 3), round(rng.random(), 3)]) for u, v in edges if rng.random() < 0.6}
     # ---- initially enabled optional features
     enable = []
